@@ -52,6 +52,13 @@ def PyErr.name : PyErr → String
 
 abbrev Res (α : Type) := Except PyErr α
 
+instance {α : Type} [DecidableEq α] : DecidableEq (Res α) := fun a b =>
+  match a, b with
+  | .ok x, .ok y => if h : x = y then isTrue (by rw [h]) else isFalse (by intro e; cases e; exact h rfl)
+  | .error e, .error f => if h : e = f then isTrue (by rw [h]) else isFalse (by intro x; cases x; exact h rfl)
+  | .ok _, .error _ => isFalse (by intro x; cases x)
+  | .error _, .ok _ => isFalse (by intro x; cases x)
+
 def Res.isOk {α} : Res α → Bool
   | .ok _ => true
   | .error _ => false
